@@ -521,6 +521,95 @@ theorem u8ToInt_spec (src : BitVec 8) :
   have := shl1_toInt (BitVec.zeroExtend 64 src) (by omega)
   rw [isShort_iff_toInt]; unfold sval; omega
 
+/-! ## bitwise operations: the w-bit two's-complement operation is Python's operator on the signed values -/
+
+theorem toInt_of_msb_false {w : Nat} (x : BitVec w) (h : x.msb = false) : x.toInt = Int.ofNat x.toNat := by
+  rw [BitVec.toInt_eq_msb_cond]; simp [h]
+
+theorem toInt_of_msb_true {w : Nat} (x : BitVec w) (h : x.msb = true) : x.toInt = Int.negSucc (~~~x).toNat := by
+  rw [BitVec.toInt_eq_msb_cond, BitVec.toNat_not, Int.negSucc_eq]
+  simp only [h, if_true]
+  have := x.isLt
+  omega
+
+theorem bv_and_andnot {w : Nat} (x y : BitVec w) : x &&& y = x ^^^ (x &&& ~~~y) := by
+  ext i hi; simp <;> (cases x[i] <;> cases y[i] <;> rfl)
+theorem bv_not_or_andnot {w : Nat} (x y : BitVec w) : ~~~(x ||| y) = ~~~y ^^^ (~~~y &&& x) := by
+  ext i hi; simp <;> (cases x[i] <;> cases y[i] <;> rfl)
+theorem bv_not_or {w : Nat} (x y : BitVec w) : ~~~(x ||| y) = ~~~x &&& ~~~y := by
+  ext i hi; simp
+theorem bv_not_and {w : Nat} (x y : BitVec w) : ~~~(x &&& y) = ~~~x ||| ~~~y := by
+  ext i hi; simp
+theorem bv_not_xor_r {w : Nat} (x y : BitVec w) : ~~~(x ^^^ y) = x ^^^ ~~~y := by
+  ext i hi; simp <;> (cases x[i] <;> cases y[i] <;> rfl)
+theorem bv_not_xor_l {w : Nat} (x y : BitVec w) : ~~~(x ^^^ y) = ~~~x ^^^ y := by
+  ext i hi; simp <;> (cases x[i] <;> cases y[i] <;> rfl)
+theorem bv_xor_not_not {w : Nat} (x y : BitVec w) : x ^^^ y = ~~~x ^^^ ~~~y := by
+  ext i hi; simp <;> (cases x[i] <;> cases y[i] <;> rfl)
+
+theorem toInt_and_pyAnd {w : Nat} (x y : BitVec w) : (x &&& y).toInt = pyAnd x.toInt y.toInt := by
+  cases hx : x.msb <;> cases hy : y.msb
+  · rw [toInt_of_msb_false x hx, toInt_of_msb_false y hy, toInt_of_msb_false _ (by simp [hx])]
+    simp [pyAnd]
+  · rw [toInt_of_msb_false x hx, toInt_of_msb_true y hy, toInt_of_msb_false _ (by simp [hx])]
+    simp only [pyAnd, natAndNot]
+    conv => lhs; rw [bv_and_andnot]
+    simp
+  · rw [toInt_of_msb_true x hx, toInt_of_msb_false y hy, toInt_of_msb_false _ (by simp [hy])]
+    simp only [pyAnd, natAndNot]
+    conv => lhs; rw [BitVec.and_comm, bv_and_andnot]
+    simp
+  · rw [toInt_of_msb_true x hx, toInt_of_msb_true y hy, toInt_of_msb_true _ (by simp [hx, hy])]
+    simp only [pyAnd]
+    rw [bv_not_and]; simp
+
+theorem toInt_or_pyOr {w : Nat} (x y : BitVec w) : (x ||| y).toInt = pyOr x.toInt y.toInt := by
+  cases hx : x.msb <;> cases hy : y.msb
+  · rw [toInt_of_msb_false x hx, toInt_of_msb_false y hy, toInt_of_msb_false _ (by simp [hx, hy])]
+    simp [pyOr]
+  · rw [toInt_of_msb_false x hx, toInt_of_msb_true y hy, toInt_of_msb_true _ (by simp [hx, hy])]
+    simp only [pyOr, natAndNot]
+    rw [bv_not_or_andnot]; simp
+  · rw [toInt_of_msb_true x hx, toInt_of_msb_false y hy, toInt_of_msb_true _ (by simp [hx, hy])]
+    simp only [pyOr, natAndNot]
+    rw [BitVec.or_comm, bv_not_or_andnot]; simp
+  · rw [toInt_of_msb_true x hx, toInt_of_msb_true y hy, toInt_of_msb_true _ (by simp [hx, hy])]
+    simp only [pyOr]
+    rw [bv_not_or]; simp
+
+theorem toInt_xor_pyXor {w : Nat} (x y : BitVec w) : (x ^^^ y).toInt = pyXor x.toInt y.toInt := by
+  cases hx : x.msb <;> cases hy : y.msb
+  · rw [toInt_of_msb_false x hx, toInt_of_msb_false y hy, toInt_of_msb_false _ (by simp [hx, hy])]
+    simp [pyXor]
+  · rw [toInt_of_msb_false x hx, toInt_of_msb_true y hy, toInt_of_msb_true _ (by simp [hx, hy])]
+    simp only [pyXor]
+    rw [bv_not_xor_r]; simp
+  · rw [toInt_of_msb_true x hx, toInt_of_msb_false y hy, toInt_of_msb_true _ (by simp [hx, hy])]
+    simp only [pyXor]
+    rw [bv_not_xor_l]; simp
+  · rw [toInt_of_msb_true x hx, toInt_of_msb_true y hy, toInt_of_msb_false _ (by simp [hx, hy])]
+    simp only [pyXor]
+    conv => lhs; rw [bv_xor_not_not]
+    simp
+
+theorem ofInt64_toInt (a : Int) (h : -9223372036854775808 ≤ a ∧ a < 9223372036854775808) :
+    (BitVec.ofInt 64 a).toInt = a := by
+  rw [BitVec.toInt_ofInt, Int.bmod_def]; split <;> omega
+
+/-- on operands that fit 64 bits, the 64-bit two's-complement operation *is* Python's operator -/
+theorem and64_eq_pyAnd (a b : Int) (ha : -9223372036854775808 ≤ a ∧ a < 9223372036854775808)
+    (hb : -9223372036854775808 ≤ b ∧ b < 9223372036854775808) : and64 a b = pyAnd a b := by
+  unfold and64; rw [toInt_and_pyAnd, ofInt64_toInt a ha, ofInt64_toInt b hb]
+theorem or64_eq_pyOr (a b : Int) (ha : -9223372036854775808 ≤ a ∧ a < 9223372036854775808)
+    (hb : -9223372036854775808 ≤ b ∧ b < 9223372036854775808) : or64 a b = pyOr a b := by
+  unfold or64; rw [toInt_or_pyOr, ofInt64_toInt a ha, ofInt64_toInt b hb]
+theorem xor64_eq_pyXor (a b : Int) (ha : -9223372036854775808 ≤ a ∧ a < 9223372036854775808)
+    (hb : -9223372036854775808 ≤ b ∧ b < 9223372036854775808) : xor64 a b = pyXor a b := by
+  unfold xor64; rw [toInt_xor_pyXor, ofInt64_toInt a ha, ofInt64_toInt b hb]
+
+theorem fits_range (n : Int) (h : Fits n) : -9223372036854775808 ≤ n ∧ n < 9223372036854775808 := by
+  unfold Fits at h; omega
+
 /-! ## ranges -/
 
 theorem rshift_fits (l r : BitVec 64) (hc : isShort l ∧ isShort r ∧ 0 ≤ sval r) :
